@@ -276,6 +276,25 @@ CLAIMED = {
         'block-diagonals; C06 uses inverse_r with an agreement lemma.',
         'DESIGN.md section 4, C06',
     ),
+    'C04': (
+        'Coq proof, for all expression trees over a commutative ring, of linearity (homogeneity + additivity through '
+        'compositions, sums and blocks, from the two leaf linearity facts) and that every as_matrix override (identity, '
+        'scalar, sum, block row/diagonal/column over nested containers, ravel/reshape, lazy inverse, composites) '
+        'REPRESENTS the application (M.flat(x) = flat(op x), pytree-leaf then row-major order) and hence equals the generic '
+        'column construction; the generic fori_loop is transcribed literally (jcounter, .at[].set) beside its column form; '
+        'differential correspondence of the three real dense forms with both model forms',
+        'denote_homogeneous, denote_additive, denote_linear, sum_represents, block_represents, '
+        'identity_scalar_override_is_generic, represents_implies_generic, matrix_determined_by_products closed and '
+        'premise-free; apply_is_matvec_partial, override_represents_partial, override_eq_generic_partial carry named '
+        'premises. 14 obligations closed under the global context. Tie: C-tie on 470 (quick) / 6475 (thorough) operators: '
+        'op.as_matrix(), AbstractLinearOperator.as_matrix(op), the mv(e_j) matrix, linearity probes, vs x_as_matrix / '
+        'x_generic / Exec.mat.',
+        'Partial: override_eq_generic carries the premises LOOP (transcribed loop = its column form: a model-to-model '
+        'equality checked on every case, not proved) and HON (C05 honesty, derivable via honesty_premise_from_C05); array-level '
+        'leaf overrides rest on C09/C11 (their own models); lin_facts not discharged for Exec.leafsem. Trusts measured leaf '
+        'matrices, textbook hstack/vstack/block_diag/inv, float32 snapped to rationals; dtypes not modelled here (C05).',
+        'DESIGN.md section 4, C04',
+    ),
 }
 
 PENDING_REASON = 'check not built yet in this session (work in progress; see DESIGN.md section 8 for the order of work)'
